@@ -115,6 +115,14 @@ CHECKS["C07"] = dict(
     technique="CrossHair symbolic execution of the IR usage check + placement family with reject/accept oracle",
     engine="E-PY",
 )
+CHECKS["C13"] = dict(
+    category="other",
+    text="CrossHair executes the real metaclass __getitem__ machinery of BitVector/Unsigned/Signed/Array and Signal/Variable/Temporary/Port and the view accessors symbolically: 63 conditions (all must be 'Confirmed over all paths') over symbolic widths (1..8), kinds, qualifier kinds, port directions, both orders of first use (type caches reset to the import-time snapshot on every path), and for views the contents, written slice, written bits, read view and qualifier. Post-conditions: identical class <=> equal parameters; issubclass matrix of the statement incl. 'unrelated => False'; Port[T,d] is a subclass of Signal[T]; writes through any view are read back through every other view, same _root and qualifier.",
+    design_ref="DESIGN.md 3/C13, 2.7",
+    note="Bounded (widths, two first-use orders per pair, object width 2/3 for views). Trusted: CrossHair/z3; harness vfw/props/c13_epy.py.",
+    technique="CrossHair symbolic execution of the type-construction and view code with PEP316 post-conditions",
+    engine="E-PY",
+)
 NA = {}
 manifest = {
     "version": 1,
